@@ -328,6 +328,22 @@ func pDropIndex(db, coll, name string) c01Pair {
 	}}
 }
 
+// pDropIndexWithKey drops the index that has exactly this key; a key no index has is an error that drops nothing.
+func pDropIndexWithKey(db, coll string, key bson.D) c01Pair {
+	return c01Pair{cDropIndexWithKey(db, coll, key), func(m *refmodel.DB) string {
+		c := m.C(db, coll, false)
+		if c == nil {
+			return "err"
+		}
+		for _, ix := range c.Indexes {
+			if refmodel.Cmp(ix.Key, key) == 0 {
+				return refmodel.ErrClass(m.DropIndex(db, coll, ix.Name))
+			}
+		}
+		return "err"
+	}}
+}
+
 func pDropColl(db, coll string) c01Pair {
 	return c01Pair{cDropColl(db, coll), func(m *refmodel.DB) string { m.Drop(db, coll); return "ok" }}
 }
@@ -667,6 +683,10 @@ func c01Alphabet(full bool) []c01Pair {
 		pUpdate("d", "c", false, bD("a", bD("$gt", i(100), "$eq", i(150))), bD("$set", bD("b", "u1")), true),
 		pUpdate("d", "c", false, bD("a", bD("$eq", i(160), "$gt", i(100))), bD("$set", bD("b", "u2")), true),
 		pUpdate("d", "c", false, bD("$and", bson.A{bD("a", i(170)), bD("b", bD("$in", bson.A{"u3"}))}), bD("$inc", bD("n", i(1))), true),
+		// an upsert whose update sets another _id than the one its filter fixes is rejected; without an _id in the filter
+		// the update chooses it
+		pUpdate("d", "c", false, bD("_id", i(15)), bD("$set", bD("_id", i(16), "b", "u4")), true),
+		pUpdate("d", "c", false, bD("b", "u5"), bD("$set", bD("_id", i(17))), true),
 		// malformed updates are rejected whether or not a document matches
 		pUpdate("d", "c", false, bD("_id", i(2)), bD("$max", bD("a", i(1)), "$min", bD("a", i(5))), false),
 		pUpdate("d", "c", true, bD("_id", i(77)), bD("$bogus", bD("a", i(1))), false),
@@ -690,6 +710,8 @@ func c01Alphabet(full bool) []c01Pair {
 		pCreateIndex("d", "c", bD("b", i(1)), idxOpt{}),
 		pCreateIndex("d", "c", bD("a", i(1)), idxOpt{unique: true, partial: bD("b", bD("$exists", true)), name: "pa"}),
 		pDropIndex("d", "c", "a_1"), pDropIndex("d", "c", "*"), pListIndexes("d", "c"),
+		// by key: the index with this key, and a key (another direction) that no index has
+		pDropIndexWithKey("d", "c", bD("b", i(1))), pDropIndexWithKey("d", "c", bD("a", i(-1))),
 		pDropColl("d", "c"), pDropDB("d"), pCreateColl("d", "c"), pListColls("d"), pListDBs(),
 		pInsertOne("d", "e", bD("_id", i(1), "a", i(1))), pFind("d", "e", bD(), nil, nil, 0, 0),
 		// a collection whose name starts with the name of another one
